@@ -501,7 +501,7 @@ Theorem split_units : forall rf (dbg : bool) (req : N -> bool) (u0 : unitd) (us 
     (forall out', convert_split_filtered rf dbg req (u0 :: us) = Ok out' -> out' = out).
 Proof. exact split_units_full. Qed.
 
-(* No dangling reference in the split path (full statement; the split filter was repaired in /repo FIXCOMMIT:
+(* No dangling reference in the split path (full statement; the split filter was repaired in /repo 7a2e6de:
    only the offsets of the converted unit are reserved).  Every reference the strict split conversion resolves
    for an emitted DIE names the root DIE or an emitted DIE. *)
 Theorem split_refs : forall (dbg : bool) (req : N -> bool) (u0 : unitd) (us : list unitd) out,
@@ -527,7 +527,7 @@ Theorem split_foreign_ref_is_error : forall (dbg : bool) (req : N -> bool) (u0 :
     forall out, convert_split_filtered filter_refs dbg req (u0 :: us) <> Ok out.
 Proof. exact split_foreign_ref_is_error_full. Qed.
 
-(* the input of the repaired defect (fixed: FIXCOMMIT): two units in the .dwo section, a required variable of the
+(* the input of the repaired defect (fixed: 7a2e6de): two units in the .dwo section, a required variable of the
    first whose DW_AT_type is a DW_FORM_ref_addr reference to a struct of the second.  The strict filtered split
    conversion now reports InvalidDebugInfoRef like the unfiltered conversion of the first unit alone; the tolerant
    loop skips the attribute and emits the variable. *)
